@@ -209,7 +209,7 @@ def deletion_effect(model, X, deletions, left=False, args=None, func=predict,
 	m = mask if left == True else torch.flip(mask, dims=(-1,))
 	flank = torch.cumsum(1 - m, dim=-1) <= counts[:, None]
 	mask += (flank if left == True else torch.flip(flank, dims=(-1,)))
-	mask = (1 - mask).type(torch.bool)
+	mask = (mask == 0)
 	mask = mask[:, None].repeat(1, X.shape[1], 1) 
 
 	X_var = X[mask].reshape(X.shape[0], X.shape[1], -1)
